@@ -21,7 +21,7 @@ BOUNDS = {
     "quick": "<= 5 outstanding requests of different kinds (call, call with progress+details, acknowledged publish, subscribe, register, unsubscribe, unregister) x 2 router messages, each of 10 kinds with a free request id (0..2^53), error request-type from all 6 kinds, 5 payload shapes; request construction with option objects (free timeout / concurrency integers); IdGenerator one inductive step from an arbitrary state",
     "thorough": "as quick plus 7 outstanding requests x 2 router messages, and 3 router messages (all 10 kinds each, third message with 2 payload shapes) for the two 4-request sets",
 }
-EXPECT_COVERS = ["req:options", "complete:ok", "complete:err", "progress", "unknown-id:ProtocolError", "wrong-type:ProtocolError", "noise:event", "idgen:wrap", "idgen:step", "req:faithful", "send-fails"]
+EXPECT_COVERS = ["req:object-options", "req:options", "complete:ok", "complete:err", "progress", "unknown-id:ProtocolError", "wrong-type:ProtocolError", "noise:event", "idgen:wrap", "idgen:step", "req:faithful", "send-fails"]
 BUDGET = {"quick": dict(wall_s=300, max_paths=30000, diff_samples=4), "thorough": dict(wall_s=2400, max_paths=400000)}
 
 KINDS = ["call", "callp", "publish", "subscribe", "register", "unsubscribe", "unregister"]
@@ -285,14 +285,22 @@ def option_sweep(sx, kind, opt):
     out = []
     for v in values:
         clock, trace, s, t = wamplib.joined_session(sx)
-        if kind == "publish":
-            s.publish("com.myapp.topic", 1, options=types.PublishOptions(**{opt: v}))
-        elif kind == "subscribe":
-            s.subscribe(lambda: None, "com.myapp.topic", options=types.SubscribeOptions(**{opt: v}))
-        elif kind == "register":
-            s.register(lambda: None, "com.myapp.proc", options=types.RegisterOptions(**{opt: v}))
-        else:
-            s.call("com.myapp.proc", options=types.CallOptions(**{opt: v}))
+        n0 = len(t.sent)
+        try:
+            if kind == "publish":
+                s.publish("com.myapp.topic", 1, options=types.PublishOptions(**{opt: v}))
+            elif kind == "subscribe":
+                s.subscribe(lambda: None, "com.myapp.topic", options=types.SubscribeOptions(**{opt: v}))
+            elif kind == "register":
+                s.register(lambda: None, "com.myapp.proc", options=types.RegisterOptions(**{opt: v}))
+            else:
+                s.call("com.myapp.proc", options=types.CallOptions(**{opt: v}))
+        except Exception as e:  # noqa
+            sx.fail("api-call-with-an-admissible-option-value-raises", info=dict(kind=kind, option=opt, given=repr(v), exc=repr(e)))
+            continue
+        sx.check(len(t.sent) == n0 + 1, "exactly-one-request-message-per-api-call", info=dict(kind=kind, option=opt, given=repr(v)))
+        if len(t.sent) != n0 + 1:
+            continue
         m = t.sent[-1]
         if default == "n/a":
             continue
@@ -367,6 +375,67 @@ def object_form(sx, which):
     return [which, order]
 
 
+def object_options(sx, which):
+    """subscribe(obj) / register(obj): four decorated methods, each with or without options of its own in the decorator (free choice per
+    method), with or without call-level default options: every request carries ITS method's options (else the call-level ones, else none)"""
+    from autobahn import wamp
+    from autobahn.wamp import message, types
+    clock, trace, s, t = wamplib.joined_session(sx)
+    has = [sx.flag("own%d" % i) for i in range(4)]
+    call_level = sx.flag("call_level")
+    calls = []
+    if which == "subscribe":
+        own = [types.SubscribeOptions(match="prefix", details_arg="details"), types.SubscribeOptions(match="wildcard", get_retained=True),
+               types.SubscribeOptions(match="prefix", get_retained=True), types.SubscribeOptions(match="wildcard", details_arg="det")]
+        dflt = types.SubscribeOptions(match="exact", get_retained=True) if call_level else None
+        deco = wamp.subscribe
+    else:
+        own = [types.RegisterOptions(match="prefix", invoke="roundrobin", concurrency=4), types.RegisterOptions(match="wildcard", invoke="first"),
+               types.RegisterOptions(match="prefix", invoke="last", force_reregister=True), types.RegisterOptions(invoke="random", concurrency=2)]
+        dflt = types.RegisterOptions(match="exact", invoke="single", concurrency=9) if call_level else None
+        deco = wamp.register
+
+    def mk(i):
+        def h(self, *a, **k):
+            calls.append((i, a, sorted(k)))
+        h.__name__ = "m%d" % i
+        return deco("com.myapp.u%d" % i, options=own[i] if has[i] else None)(h)
+    Obj = type("Obj", (), {"m%d" % i: mk(i) for i in range(4)})
+    base = len(t.sent)
+    try:
+        d = s.subscribe(Obj(), options=dflt) if which == "subscribe" else s.register(Obj(), options=dflt)
+    except Exception as e:  # noqa
+        sx.fail("object-form-raises", info=dict(which=which, has=has, call_level=call_level, exc=repr(e)))
+        return ["exc"]
+    reqs = t.sent[base:]
+    info = dict(which=which, has=has, call_level=call_level)
+    sx.check(len(reqs) == 4, "one-request-per-decorated-method", info=info)
+    for m in reqs:
+        uri = m.topic if which == "subscribe" else m.procedure
+        i = int(uri[-1])
+        eff = own[i] if has[i] else dflt
+        attrs = ("match", "get_retained") if which == "subscribe" else ("match", "invoke", "concurrency", "force_reregister")
+        for a in attrs:
+            want = getattr(eff, a, None) if eff is not None else None
+            got = getattr(m, a)
+            dflts = dict(match="exact", invoke="single")
+            ok = got == want or (want is None and got == dflts.get(a)) or (got is None and want == dflts.get(a))
+            sx.check(ok, "request-carries-its-own-methods-options", info=dict(info, method=i, attr=a, got=repr(got), want=repr(want)))
+    if which == "subscribe" and len(reqs) == 4:
+        for m in reqs:
+            s.onMessage(message.Subscribed(m.request, 1000 + m.request))
+        for m in reqs:
+            s.onMessage(message.Event(1000 + m.request, 77, args=[m.topic]))
+        for i in range(4):
+            mine = [c for c in calls if c[0] == i]
+            eff = own[i] if has[i] else dflt
+            want_kw = [eff.details_arg] if eff is not None and getattr(eff, "details_arg", None) else []
+            sx.check(len(mine) == 1 and mine[0][1] == ("com.myapp.u%d" % i,) and mine[0][2] == want_kw, "event-reaches-its-handler-with-the-details-argument-it-asked-for",
+                     info=dict(info, method=i, calls=repr(mine)))
+    sx.cover("req:object-options")
+    return [which, has, call_level]
+
+
 def send_fails(sx, kind):
     """a request whose send() raises is removed from the pending table and the error propagates"""
     from autobahn.wamp import types
@@ -439,5 +508,6 @@ def units(tier):
         U.append(("sendfails/" + k, "send_fails", dict(kind=k)))
     for w in ("subscribe", "register"):
         U.append(("objform/" + w, "object_form", dict(which=w)))
+        U.append(("objopts/" + w, "object_options", dict(which=w), dict(weight=3)))
     U.append(("idgen", "idgen", dict()))
     return U
